@@ -65,6 +65,7 @@ def gen_case(rng, i):
     elif fam == "az":
         c["azimuths"] = [0.0, 60.0, 120.0]
     c["fcs_as_array"] = bool(i % 2 == 0)
+    c["files_meta"] = bool(i % 3 != 0)
     return c
 
 
@@ -72,6 +73,10 @@ def check_case(ctx, c, rng):
     import hvsrpy
     srecords = [pg.make_srecord(r) for r in c["records"]]
     settings = pg.make_settings(c)
+    if c.get("files_meta"):
+        # what the three-file readers (miniSEED, PEER, ...) store: a LIST of file names, i.e. a mutable value nested in meta
+        for k, r in enumerate(srecords):
+            r.meta["file name(s)"] = [f"sta{k}_{comp}.miniseed" for comp in ("ns", "ew", "vt")]
     if c.get("fcs_as_array") and settings.smoothing is not None:
         # the default holds the centre frequencies as a float64 ndarray: results must not alias it
         settings.smoothing["center_frequencies_in_hz"] = np.array(settings.smoothing["center_frequencies_in_hz"], dtype=float)
@@ -117,6 +122,8 @@ def check_case(ctx, c, rng):
     for r in srecords:
         r.ns.amplitude *= 3.0; r.vt.amplitude += 1.0
         r.meta["tamper"] = 1
+        if isinstance(r.meta.get("file name(s)"), list):
+            r.meta["file name(s)"].append("tampered-after-process")     # in-place edit of a nested value
         r.degrees_from_north = 11.0
     try:
         settings.window_type_and_width[1] = 0.9
